@@ -118,9 +118,10 @@ def line_wrap_by_sentence(
     def line_wrapper(text: str, initial_indent: str, subsequent_indent: str) -> str:
         text = text.replace("\n", " ")
 
-        # Handle width <= 0 as "no wrapping"
+        # Handle width <= 0 as "no wrapping": one line, with whitespace runs collapsed
+        # exactly as the sentence splitter below does for width > 0.
         if width <= 0:
-            return initial_indent + text.strip()
+            return initial_indent + " ".join(text.split())
 
         lines: list[str] = []
         first_line = True
